@@ -42,6 +42,9 @@ def enumerated(tier, seed):
         cases.append({"kind": "clique_points", "Hs": Hs})
     for n in range(3, (12 if q else 16) + 1):
         cases.append({"kind": "cycle", "n": n})
+    # long cycles (no brute force there): closed form of the expectation, cross-checked against brute force on short ones
+    for n in (21, 24, 33, 64):
+        cases.append({"kind": "long_cycle", "n": n})
     for n in range(1, (12 if q else 16) + 1):
         cases.append({"kind": "Q", "n": n})
     for n in range(1, (5 if q else 6) + 1):
@@ -125,6 +128,13 @@ def val(x):
     return Poly.var(x[1]) if x[0] == "v" else Poly.const(Fraction(x[1], x[2]))
 
 
+def cycle_closed(n, u, p):
+    """exact expectation on the n-cycle with equal values u: the focal vertex's component is an arc of m <= n-2 further
+    vertices bounded by two empty edges (m+1 positions), or the whole cycle (all n edges kept, or all but one)."""
+    q = 1 - p
+    return q * q * sum((m + 1) * (p * u) ** m for m in range(0, n - 1)) + u ** (n - 1) * (p ** n + n * p ** (n - 1) * q)
+
+
 def clique_oracle(tau):
     unames = [f"u{i}" for i in range(1, tau)]
     if tau <= 6:
@@ -167,7 +177,36 @@ def check(case):
                 if abs(float(got) - float(w)) > 1e-10 * max(1.0, abs(float(w))):
                     raise Violation("clique-special-point", f"clique_equation(tau={tau}, phi={phi}, Hs={order}) = {got!r}, exact "
                                                             f"expectation {float(w)!r}")
+        import numpy as np
+        if tau >= 3:
+            for tag, mk in (("0-d arrays", lambda x: np.array(x)), ("vectors", lambda x: np.array([x, x / 2 + 0.25]))):
+                arrs = [mk(h) for h in Hs]
+                keep = [a.copy() for a in arrs]
+                got = call("clique_equation", clique_equation, tau, 0.35, arrs)
+                gl = np.atleast_1d(np.asarray(got, dtype=float))
+                for j in range(len(gl)):
+                    hj = [float(np.atleast_1d(a)[j if a.ndim else 0]) for a in keep]
+                    w = base.subs({**{f"u{i + 1}": Fraction(h) for i, h in enumerate(hj)}, "p": Fraction(0.35)})
+                    if abs(float(gl[j]) - float(w)) > 1e-10 * max(1.0, abs(float(w))):
+                        raise Violation("clique-special-point", f"clique_equation(tau={tau}, phi=0.35, Hs as {tag} {keep}) = {got!r}, exact "
+                                                                f"expectation {float(w)!r} (component {j})")
+                if any(not np.array_equal(a, b) for a, b in zip(arrs, keep)):
+                    raise Violation("input-mutated", f"clique_equation(tau={tau}) changed the neighbour values handed over ({tag}): {keep} -> {arrs}")
         return {"nontrivial": tau >= 3, "classes": ["clique_special_points"]}
+    if k == "long_cycle":
+        n = case["n"]
+        pts = [(3, 3), (2, 3), (2, -1), (-2, 2), (5, 1), (1, 7), (Fraction(1, 2), Fraction(1, 3)), (0.5, 0.25), (0.9, 0.99), (1.0, 1.0), (0.0, 0.5)]
+        for m_ in (5, 8):  # the closed form itself against brute force
+            full = oracles.percolation_poly(list(range(m_)), [(i, (i + 1) % m_) for i in range(m_)], 0)
+            for u_, phi_ in pts[:7]:
+                if compose(full, {f"u{i}": Poly.var("u") for i in range(m_)}).subs({"u": Fraction(u_), "p": Fraction(phi_)}) != cycle_closed(m_, Fraction(u_), Fraction(phi_)):
+                    raise RuntimeError("harness: closed form of the cycle expectation disagrees with brute force")
+        for u_, phi_ in pts:
+            g = call("chordless_cycle_equation", chordless_cycle_equation, n, u_, phi_)
+            w = cycle_closed(n, Fraction(u_), Fraction(phi_))
+            if abs(Fraction(g) - w) > max(abs(w), 1) * Fraction(1, 10 ** 9):
+                raise Violation("cycle-long", f"chordless_cycle_equation(n={n}, u={u_}, phi={phi_}) = {g!r}, exact value {float(w)!r}")
+        return {"nontrivial": True, "classes": ["long_cycle"]}
     if k == "cycle":
         n = case["n"]
         nodes = list(range(n))
@@ -194,6 +233,12 @@ def check(case):
         if got != want:
             d = got - want
             raise Violation("cycle-identity", f"chordless_cycle_equation(n={n}) differs from the exact expectation on C_{n}: {str(d)[:300]}")
+        # the same identity at integer points (plain Python ints: exact arithmetic, values far beyond 2**63 on long cycles)
+        for u_, phi_ in ((3, 3), (2, 3), (2, -1), (-2, 2), (5, 1), (1, 7)):
+            g = call("chordless_cycle_equation", chordless_cycle_equation, n, u_, phi_)
+            w = want.subs({"u": Fraction(u_), "p": Fraction(phi_)})
+            if abs(Fraction(g) - w) > abs(w) * Fraction(1, 10 ** 9):
+                raise Violation("cycle-integer-point", f"chordless_cycle_equation(n={n}, u={u_}, phi={phi_}) = {g!r}, exact value {w}")
         return {"nontrivial": True, "classes": ["cycle_table"]}
     if k == "Q":
         n = case["n"]
